@@ -161,16 +161,17 @@ func (d *Dialer) Dial(ctx context.Context, addr jid.JID) (net.Conn, error) {
 	}
 	// Prioritize wss over anything else, then ws, then anything else that will
 	// likely just result in an error.
-	sort.Slice(urls, func(i, j int) bool {
+	rank := func(u string) int {
 		switch {
-		case strings.HasPrefix(urls[i], "wss:"):
-			return false
-		case strings.HasPrefix(urls[j], "wss:"):
-			return true
-		case strings.HasPrefix(urls[i], "ws:"):
-			return true
+		case strings.HasPrefix(u, "wss:"):
+			return 0
+		case strings.HasPrefix(u, "ws:"):
+			return 1
 		}
-		return false
+		return 2
+	}
+	sort.SliceStable(urls, func(i, j int) bool {
+		return rank(urls[i]) < rank(urls[j])
 	})
 
 	var conn net.Conn
